@@ -31,7 +31,7 @@ func init() {
 }
 
 // ---- child: emulator host with a control channel -------------------------------------------------------------
-// stdin commands:  arm <point> <n> | disarm | hold <point> | release | quit
+// stdin commands:  arm <point> <n> | disarm | hold <point> | release | gc <table> | quit
 // stdout: "ADDR <addr>", "STOPPED <point>", "HOLDING <point>", "HELD <point>" (a request is parked there), "BYE"
 
 func childServer(args []string) {
@@ -106,6 +106,10 @@ func childServer(args []string) {
 				}
 			}
 			say("RELEASED")
+		case "gc":
+			// force one real garbage-collection pass over the named table (the scheduler loop is bypassed)
+			bttest.VerifRunGC(srv.S, f[1], true)
+			say("GCDONE")
 		case "quit":
 			srv.S.Close()
 			say("BYE")
@@ -459,7 +463,7 @@ func c08VerifyImage(tag, image string, candidates []c14Registry) string {
 	for _, reg := range candidates {
 		m := c14CheckAll(s.srv, reg)
 		if m == "" {
-			return c08HiddenStateProbe(s.srv, reg)
+			return c08HiddenStateProbe(s, reg)
 		}
 		msgs = append(msgs, m)
 	}
@@ -474,13 +478,29 @@ func c08VerifyImage(tag, image string, candidates []c14Registry) string {
 // is a throw-away copy, so the probe may write: on every table each family of the pool that the table does not have is
 // created (a valid request: it must succeed, and the server must survive it), and afterwards the whole observable state
 // must be the acknowledged state plus those empty families - no cell may surface in them.
-func c08HiddenStateProbe(srv *drive.Srv, reg c14Registry) string {
+func c08HiddenStateProbe(s *c08Server, reg c14Registry) string {
+	srv := s.srv
 	probe := c08CloneReg(reg)
 	var names []string
 	for name := range probe {
 		names = append(names, name)
 	}
 	sort.Strings(names)
+	// First the garbage-collection rules that came back from disk must be in force (before any admin request touches the
+	// tables again): one forced pass per table in the restarted process must remove exactly what the model's GC removes
+	// (clock of the child = gen.BaseClock).
+	for _, name := range names {
+		s.child.send("gc " + name)
+		if l, err := s.child.readLine(120 * time.Second); err != nil || l != "GCDONE" {
+			return fmt.Sprintf("after the restart, a forced garbage-collection pass over %s did not finish: %v %q; stderr: %s", name, err, l, s.child.stderrTail(10))
+		}
+		probe[name].GC(gen.BaseClock)
+	}
+	if m := c14CheckAll(srv, probe); m != "" {
+		return "after the restart, a garbage-collection pass did not remove exactly what the (persisted) rules condemn: " + m
+	}
+	// Then: on every table each family of the pool that the table does not have is created (a valid request: it must
+	// succeed, and the server must survive it); nothing may surface in the new families.
 	for _, name := range names {
 		for _, fam := range []string{"f1", "f", "g", "f12", "f2"} {
 			if _, has := probe[name].Families[fam]; has {
@@ -502,7 +522,7 @@ func c08HiddenStateProbe(srv *drive.Srv, reg c14Registry) string {
 }
 
 func runC08(run *common.Run) {
-	run.Rule = "case = one crash image of the on-disk storage directory of a child emulator process driven by a generated admin+data program (CreateTable with GC rules, MutateRow, DropRowRange prefix/all, ModifyColumnFamilies create/update/drop and multi-modification requests, DeleteTable, re-create): (boundary) the process is frozen with SIGSTOP between two requests and the directory copied; (point) the process freezes itself at an instrumented point inside SetTableMeta / Create / Clear / the row-by-row purge of a dropped family while a request is in flight, the directory is copied and the process killed; (cycle) after such a kill the live directory is restarted and the program continues, up to 5 times; (clean) clean Server.Close stop; (real) the real cbtemulator -dir binary killed with SIGKILL between requests and restarted; (syskill) the child runs under strace and is killed at its N-th unlinkat / rename / mkdir system call, N = 1, 2, ..., over one program in which every fourth request clears a table, and at its N-th write / pwrite64 system call over a program that stores 33-100 KiB values (journal records spanning several write calls), then restarted. (dropgrid) the complete grid {1, 2, 3 families} x {family dropped} x {every crash point of a family drop incl. the 1st-3rd purged row}; (adminrace) a ModifyColumnFamilies request is parked inside its metadata write while DeleteTable (and a re-creation) is acknowledged, then released; running process and a restart must agree with a serial order. Each image is verified by starting a fresh emulator process on a private copy: it must come up, and ListTables/GetTable/full scans/NotFound probes must equal the acknowledged model, the in-flight request being wholly applied or wholly absent; then, on that throw-away copy, every pool family a table lacks is created and nothing may surface in it (remains of dropped families that are merely not displayed). Non-trivial = image taken when the model held at least one table with rows and either a request was in flight or an earlier request had removed something (rows, family, table); distinct by image."
+	run.Rule = "case = one crash image of the on-disk storage directory of a child emulator process driven by a generated admin+data program (CreateTable with GC rules, MutateRow, DropRowRange prefix/all, ModifyColumnFamilies create/update/drop and multi-modification requests, DeleteTable, re-create): (boundary) the process is frozen with SIGSTOP between two requests and the directory copied; (point) the process freezes itself at an instrumented point inside SetTableMeta / Create / Clear / the row-by-row purge of a dropped family while a request is in flight, the directory is copied and the process killed; (cycle) after such a kill the live directory is restarted and the program continues, up to 5 times; (clean) clean Server.Close stop; (real) the real cbtemulator -dir binary killed with SIGKILL between requests and restarted; (syskill) the child runs under strace and is killed at its N-th unlinkat / rename / mkdir system call, N = 1, 2, ..., over one program in which every fourth request clears a table, and at its N-th write / pwrite64 system call over a program that stores 33-100 KiB values (journal records spanning several write calls), then restarted. (dropgrid) the complete grid {1, 2, 3 families} x {family dropped} x {every crash point of a family drop incl. the 1st-3rd purged row}, and the same points for a request that drops and re-creates one family (known finding KF03 is recognised by its exact state - old definition, old cells gone - and only that state is tolerated); (adminrace) a ModifyColumnFamilies request is parked inside its metadata write while DeleteTable (and a re-creation) is acknowledged, then released; running process and a restart must agree with a serial order. Each image is verified by starting a fresh emulator process on a private copy: it must come up, and ListTables/GetTable/full scans/NotFound probes must equal the acknowledged model, the in-flight request being wholly applied or wholly absent; then, on that throw-away copy, every pool family a table lacks is created and nothing may surface in it (remains of dropped families that are merely not displayed), and a forced garbage-collection pass in the restarted process must remove exactly what the persisted rules condemn. Non-trivial = image taken when the model held at least one table with rows and either a request was in flight or an earlier request had removed something (rows, family, table); distinct by image."
 	run.Assumptions = []string{"process death only (SIGSTOP image = what kill -9 leaves: completed syscalls persist); power loss / unsynced page cache is out of scope", "crash points = request boundaries + the instrumented points; kills inside leveldb's own write path are not enumerated"}
 	nprog := run.N(12, 300)
 	scratch, err := os.MkdirTemp("", "verif-c08-")
@@ -982,18 +1002,25 @@ func c08DropGrid(run *common.Run, base string) {
 	points := []pt{{"disk.meta.enter", 1}, {"disk.meta.afterMkdir", 1}, {"disk.meta.afterTmp", 1}, {"disk.meta.afterRename", 1}, {"purge.afterRow", 1}, {"purge.afterRow", 2}, {"purge.afterRow", 3}}
 	famSets := [][]string{{"f1"}, {"f1", "f"}, {"f1", "f", "g"}}
 	type job struct {
-		fams []string
-		drop string
-		p    pt
+		fams     []string
+		drop     string
+		p        pt
+		recreate bool // the request is [drop f, create f=maxversions(2)]
 	}
 	var jobs []job
 	for _, fs := range famSets {
 		for _, d := range fs {
 			for _, p := range points {
-				jobs = append(jobs, job{fs, d, p})
+				jobs = append(jobs, job{fs, d, p, false})
 			}
 		}
 	}
+	for _, fs := range famSets[:2] {
+		for _, p := range points {
+			jobs = append(jobs, job{fs, "f1", p, true})
+		}
+	}
+	kf03 := run.KnownOpen("KF03")
 	common.Parallel(len(jobs), 6, func(i int) {
 		if !run.Want("dropgrid", i) || run.TooMany() {
 			return
@@ -1031,13 +1058,21 @@ func c08DropGrid(run *common.Run, base string) {
 			delete(row, jb.drop)
 			post[name].Commit(k, row)
 		}
+		mods := []*btapb.ModifyColumnFamiliesRequest_Modification{{Id: jb.drop, Mod: &btapb.ModifyColumnFamiliesRequest_Modification_Drop{Drop: true}}}
 		desc := fmt.Sprintf("table with families %v and 4 rows; ModifyColumnFamilies(drop %s) killed at %s #%d", jb.fams, jb.drop, jb.p.point, jb.p.nth)
+		cands := []c14Registry{pre, post}
+		if jb.recreate {
+			newRule := &model.GcRule{Kind: model.GcMaxVersions, N: 2}
+			post[name].Families[jb.drop] = newRule
+			mods = append(mods, &btapb.ModifyColumnFamiliesRequest_Modification{Id: jb.drop, Mod: &btapb.ModifyColumnFamiliesRequest_Modification_Create{Create: &btapb.ColumnFamily{GcRule: drive.GcToProto(newRule)}}})
+			desc = fmt.Sprintf("table with families %v and 4 rows; ModifyColumnFamilies(drop %s, create %s=maxversions(2)) killed at %s #%d", jb.fams, jb.drop, jb.drop, jb.p.point, jb.p.nth)
+		}
 		s.child.send(fmt.Sprintf("arm %s %d", jb.p.point, jb.p.nth))
 		s.child.readLine(30 * time.Second)
 		go func() {
 			ctx, cancel := drive.Ctx()
 			defer cancel()
-			s.srv.Admin.ModifyColumnFamilies(ctx, &btapb.ModifyColumnFamiliesRequest{Name: name, Modifications: []*btapb.ModifyColumnFamiliesRequest_Modification{{Id: jb.drop, Mod: &btapb.ModifyColumnFamiliesRequest_Modification_Drop{Drop: true}}}})
+			s.srv.Admin.ModifyColumnFamilies(ctx, &btapb.ModifyColumnFamiliesRequest{Name: name, Modifications: mods})
 		}()
 		if l, _ := s.child.readLine(60 * time.Second); !strings.HasPrefix(l, "STOPPED") {
 			run.Count("dropgrid_point_not_reached", 1)
@@ -1052,7 +1087,32 @@ func c08DropGrid(run *common.Run, base string) {
 			run.Inconclusive("copy failed: " + err.Error())
 			return
 		}
-		if m := c08VerifyImage(fmt.Sprintf("dgv%d", i), img, []c14Registry{pre, post}); m != "" {
+		m := c08VerifyImage(fmt.Sprintf("dgv%d", i), img, cands)
+		if m != "" && jb.recreate && kf03 {
+			// known finding KF03, and only that: the OLD definition is served and old cells of the re-created family
+			// (and nothing else) are gone. Anything else (e.g. the new definition with the old cells) is reported.
+			// (the purge of the re-created family runs row by row before the definition is persisted: the old cells
+			// may be gone from any subset of the rows)
+			var sigs []c14Registry
+			rowKeys := pre[name].Keys()
+			for mask := 1; mask < 1<<len(rowKeys); mask++ {
+				sig := c08CloneReg(pre)
+				for bi, k := range rowKeys {
+					if mask&(1<<bi) != 0 {
+						row := sig[name].Rows[k]
+						delete(row, jb.drop)
+						sig[name].Commit(k, row)
+					}
+				}
+				sigs = append(sigs, sig)
+			}
+			img2 := filepath.Join(dir, "img2")
+			if err := copyDir(live, img2); err == nil && c08VerifyImage(fmt.Sprintf("dgk%d", i), img2, sigs) == "" {
+				run.Count("dropgrid_images_showing_known_finding_KF03", 1)
+				m = ""
+			}
+		}
+		if m != "" {
 			run.Violation("dropgrid", i, m+" | "+desc, map[string]any{"case": desc})
 		}
 		run.Case(common.Hash64("dropgrid", desc), true)
